@@ -23,6 +23,7 @@ REQUIRED = [
     'Ems.C14.cell_index_spec', 'Ems.C14.vertex_table_spec',
     'Ems.C14.fan_cover', 'Ems.C14.fan_partition', 'Ems.C14.strictConvex_hyps', 'Ems.C14.ear_succeeds',
     'Ems.C14.cell_count', 'Ems.C14.cell_area', 'Ems.C14.dataset_cell_triangles',
+    'Ems.C14.convex_path_partition', 'Ems.C14.total_triangles_spec',
 ]
 RULE = ('(a) datasets of all five convention classes (holes = cells without geometry; UGRID meshes from '
         'gen_mesh mix triangles..octagons, concave L / pentagon faces, mid-edge collinear nodes, both windings, '
@@ -50,6 +51,11 @@ ASSUMPTIONS = [
     'containment and non-overlap on the ear path are proved relative to the ear oracle\'s contract (ear_inside_partial), which is GEOS behaviour',
     'the order in which triangle_dataset emits triangles of different cells and the order of the vertex table are not part of the property; outputs are compared per cell, order-canonicalised',
 ]
+LEVEL_TEXT = ('machine-checked (Lean 4) for all vertex lists over the rationals and all oracle functions: counts, signed areas, '
+              'termination, cell index, vertex table; fan path: exact partition of every strictly convex cell; '
+              'ear path: containment / non-overlap relative to the contract of the GEOS ear test')
+LEVEL_NOTE = ('ear_inside_partial assumes the ear oracle\'s contract (GEOS covered_by / intersection semantics); the exact rational '
+              'ear and hull tests used by the driver are validated against GEOS on every generated polygon, not proved')
 TECHNIQUE = 'Lean 4 proof about a hand-written model (Core/Triangulate.lean) + differential correspondence through emsarray.operations.triangulate.triangulate_dataset'
 
 
